@@ -21,9 +21,11 @@ def independent(m, ts):
 
 
 @st.composite
-def cases(draw, tier):
-    proj = draw(sgen.graphs({"max_leaf": 6 if tier == "quick" else 10, "max_mid": 5 if tier == "quick" else 9,
-                             "p_csum": 20, "p_always": 15, "p_gate": 60, "p_stem": 35, "p_postgate": 25}))
+def cases(draw, tier, override=None):
+    go = {"max_leaf": 6 if tier == "quick" else 10, "max_mid": 5 if tier == "quick" else 9,
+          "p_csum": 20, "p_always": 15, "p_gate": 60, "p_stem": 35, "p_postgate": 25}
+    go.update(override or {})
+    proj = draw(sgen.graphs(go))
     L = proj["layers"]
     allt = L["tops"] + L["mids"] + L["leaves"]
     kind = draw(st.sampled_from(["redo", "redo", "ifchange"]))
